@@ -5,6 +5,7 @@ import sys
 from . import driver as D
 from . import props as P
 from . import kani as K
+from . import emit_l1 as L1
 
 COMMON_ASSUMPTIONS = [
     "the program verified is rustc's MIR of the real derive expansion (Kani's pinned nightly, dev profile, overflow checks on), translated by kani-compiler 0.68 and decided by CBMC 6.11 + CaDiCaL",
@@ -52,7 +53,74 @@ def run_engine_a_property(pid, tier, seed):
     }
     ht = 300 if tier == "quick" else 1200
     D.engine_a(rep, mods, ht, compile_violation=(pid != "C02"))
+    if pid == "C01":
+        # lemma: the run table every with-holes function trusts, with SYMBOLIC discriminants
+        L1.engine_c(rep, 4 if tier == "quick" else 8, ht)
     return D.finish(rep, RULES[pid], COMMON_ASSUMPTIONS, COMMON_OUTSIDE)
+
+
+def _corpus(rep, mods):
+    seen = {}
+    for m in mods:
+        for d in ([m.a.decl, m.b.decl] if hasattr(m, "a") else [m.decl]):
+            seen.setdefault(d.name, d)
+    rep.corpus = [d.describe() for d in seen.values()]
+    rep.bounds.update({
+        "declarations": len(seen), "modules": len(mods),
+        "harnesses": sum(len(m.harnesses) for m in mods),
+        "unwind": "per harness; unwinding assertions on, doubled on failure",
+        "max_variants": max([d.n for d in seen.values()] or [0]),
+        "reprs": sorted({d.repr for d in seen.values()}),
+        "seed": rep.seed,
+    })
+
+
+B_ASSUME = [
+    "Engine B: the real src/generator/features.rs + every feature's check() included by #[path]; Features built as Derive::parse would (disabled feature => mode auto, helper tables disabled)",
+    "Engine B: the legality predicate (range => iter and not table_inline; iter range => gapless) and the template-reference table are read from src/lib.rs and the quote! templates by hand and are part of the oracle",
+]
+
+
+def run_C13(tier, seed):
+    rep = D.Report("C13", tier, seed)
+    L1.engine_b(rep, ["h_resolve_illegal", "h_resolve_legal", "h_witness_reaches_end"], 600 if tier == "quick" else 1800)
+    rep.extra["claimed_clauses"] = ["range without iter", "range with iter(mode=table_inline)", "iter(mode=range) on an enum with holes"]
+    rep.extra["clauses_outside_the_claim"] = ["unknown/duplicate feature or parameter", "wrong value kind", "mode/visibility whitelist", "variant-level attribute (all in the HashMap/syn parser, not encodable)"]
+    return D.finish(rep, "one obligation = one Engine B harness; each covers ALL configurations in one query; non-trivial = the three illegal shapes are each reachable (cover witnesses)",
+                    COMMON_ASSUMPTIONS[:2] + B_ASSUME, ["the parser-level clauses of C13", "u128/i128 only through repr_size 16 in the resolver"])
+
+
+def run_C09(tier, seed):
+    rep = D.Report("C09", tier, seed)
+    ht = 300 if tier == "quick" else 1200
+    L1.engine_b(rep, ["h_resolve_legal", "h_witness_reaches_end"], 600)
+    mods = P.plan_C09_pairs(tier, seed)
+    _corpus(rep, mods)
+    D.engine_a(rep, mods, ht, compile_violation=False, crate_tag="d")
+    return D.finish(rep, "Engine B: all configurations in one query (auto resolves only to documented explicit modes legal for the shape, explicit modes untouched). Engine A: one obligation = (declaration, configuration pair, differential harness) with the same symbolic input given to both derives",
+                    COMMON_ASSUMPTIONS + B_ASSUME, COMMON_OUTSIDE + ["configuration pairs outside the bundle list (every explicit mode is additionally tied to the same oracle by C01-C08)"])
+
+
+def run_C18(tier, seed):
+    rep = D.Report("C18", tier, seed)
+    ht = 300 if tier == "quick" else 1200
+    mods = P.plan_C18_pairs(tier, seed) + P.plan_C18_oracle(tier, seed)
+    _corpus(rep, mods)
+    D.engine_a(rep, mods, ht, compile_violation=False, crate_tag="d")
+    return D.finish(rep, "one obligation = (pair of declarations with the same discriminant->name map but different declaration order / repr, differential harness) or (family member, oracle harness against the map's DISC/NAMES)",
+                    COMMON_ASSUMPTIONS, COMMON_OUTSIDE + ["permutations other than sorted/reversed/seeded shuffle"])
+
+
+def run_C10(tier, seed):
+    rep = D.Report("C10", tier, seed)
+    ht = 300 if tier == "quick" else 1200
+    L1.engine_b(rep, ["h_needs", "h_resolve_legal", "h_witness_reaches_end"], 600)
+    D.base_case_compile(rep, P.base_cases())
+    mods = P.plan_C10_split(tier, seed)
+    _corpus(rep, mods)
+    D.engine_a(rep, mods, ht, compile_violation=False, crate_tag="d")
+    return D.finish(rep, "Engine B: dependency closure for ALL configurations (every helper a resolved template refers to is enabled; no enabled item left on auto; range only with a mode that has a template). Base cases: every documented feature/mode/parameter compiled on a gapless and a with-holes enum (rustc, listed separately). Engine A: one attribute vs several attributes, differential",
+                    COMMON_ASSUMPTIONS + B_ASSUME, COMMON_OUTSIDE + ["that rustc accepts configurations other than the compiled base cases (reduced to them by the closure argument)", "name clashes the user creates"])
 
 
 def main(argv):
@@ -80,5 +148,8 @@ def main(argv):
     os.makedirs(K.WORK, exist_ok=True)
     if pid in P.PLANS:
         return run_engine_a_property(pid, tier, seed)
+    special = {"C09": run_C09, "C10": run_C10, "C13": run_C13, "C18": run_C18}
+    if pid in special:
+        return special[pid](tier, seed)
     print("unknown or not-applicable property: %s" % pid)
     return 2
